@@ -184,6 +184,7 @@ func runC04(c *Ctx) {
 	c.c04AbsenceOnlyFromLstat(fns)
 	c.c04PatternsHandedDown(fns)
 	c.c04FailuresAreNotOvertaken(fns)
+	c.c04GivenPathMatchedWhole(fns)
 	c.rule("N14", absentOnlyWhenAbsentText, 3)
 	c.c04AbsentOnlyWhenAbsent("N14", nil)
 	for _, f := range fns {
@@ -1199,5 +1200,59 @@ func (c *Ctx) c04FailuresAreNotOvertaken(fns []*ssa.Function) {
 	}
 	if n == 0 {
 		c.info("N17", "filesystem/no-removal-in-a-loop", "-", "no removal step is made in a loop any more")
+	}
+}
+
+// c04GivenPathMatchedWhole (N18): "entries matching an exclusion pattern survive". An entry found while a directory is
+// cleaned is matched by its name when the directory is listed; the path a removal function was *given* is matched as the
+// path it is — every pattern is expanded into a form that matches a whole path with the named component anywhere in it
+// (`.*/pattern/.*`). Reduced to its last component first (filepath.Base), a path below an excluded directory, or one a
+// pattern designates in path form, is no longer recognised and is removed.
+func (c *Ctx) c04GivenPathMatchedWhole(fns []*ssa.Function) {
+	c.rule("N18", "in the removal call graph the path a function was given is tested against the patterns as the (cleaned) path itself, not reduced to a component (filepath.Base / Dir / Ext / Rel) first", 1)
+	for _, f := range fns {
+		if f.Blocks == nil {
+			continue
+		}
+		top := outermost(f)
+		n := 0
+		allInstrs(f, func(in ssa.Instruction) {
+			cl, ok := in.(*ssa.Call)
+			if !ok {
+				return
+			}
+			name := calleeFull(&cl.Call)
+			if !strings.HasSuffix(name, "filesystem.IsPathExcluded") && !strings.HasSuffix(name, "filesystem.IsPathExcludedFromPatterns") || len(cl.Call.Args) == 0 {
+				return
+			}
+			reduced := ""
+			fromParam := false
+			for _, l := range sources(cl.Call.Args[0], deriveOpts{through: func(g string) bool {
+				for _, red := range []string{"path.Base", "path.Dir", "path.Ext", "FilepathStem", "filepath.Base", "filepath.Dir", "filepath.Ext", "filepath.Rel", "filepath.Split"} {
+					if strings.HasSuffix(g, red) {
+						reduced = red
+					}
+				}
+				return true
+			}}) {
+				if p, ok := resolveValue(l).(*ssa.Parameter); ok && p.Parent() == top && p.Type().String() == "string" {
+					fromParam = true
+				}
+				if fv, ok := l.(*ssa.FreeVar); ok && fv.Type().String() == "*string" {
+					fromParam = true
+				}
+			}
+			if !fromParam || inLoop(cl) {
+				return // an item of a listing (matched by name, E3), not the path given
+			}
+			key := fname(top) + "/given-path-matched-whole"
+			if n > 0 {
+				key += "#" + strconv.Itoa(n)
+			}
+			n++
+			c.FuncsSeen[fname(top)] = true
+			c.check(reduced == "", "N18", key, c.ipos(cl), "the path given is matched as it is",
+				"the path given is reduced with "+reduced+" before it is matched: a file below an excluded directory (…/vault/sub/data.txt with the pattern `vault`), or one a pattern designates in path form, is no longer recognised as excluded — the library's own IsPathExcludedFromPatterns says it is — and it is removed")
+		})
 	}
 }
